@@ -238,7 +238,7 @@ theorem destroyNow_locked_refines {c : CW} {s : WS} (hi : Inv c) (hr : Rel c s) 
     agree_ok_nil _ _ rfl⟩
 
 theorem destroy_locked_refines {c : CW} {s : WS} (hi : Inv c) (hr : Rel c s) (hl : c.w.isLocked = true)
-    (t : Nat) (e : Handle) (hk : Known c e) (hrg : HRange e) : StepRefines info c s (.destroy t e) := by
+    (t : Nat) (e : Handle) (hk : Known c e) : StepRefines info c s (.destroy t e) := by
   obtain ⟨w, iss⟩ := c
   have hl' : 0 < w.lockDepth := (isLocked_iff w).mp hl
   have hl2 : w.isLocked = true := hl
@@ -249,7 +249,7 @@ theorem destroy_locked_refines {c : CW} {s : WS} (hi : Inv c) (hr : Rel c s) (hl
     simp only [Op.mapRef, WS.step, hsl, if_true]
   unfold StepRefines
   rw [hstep, hs]
-  exact ⟨inv_push hi t (.destroy e) rfl hk hrg hl', rel_push hr t (.destroy e) (.destroy (ordOf iss e)) rfl,
+  exact ⟨inv_push hi t (.destroy e) rfl hk trivial hl', rel_push hr t (.destroy e) (.destroy (ordOf iss e)) rfl,
     agree_ok_nil _ _ rfl⟩
 
 theorem remove_locked_refines {c : CW} {s : WS} (hi : Inv c) (hr : Rel c s) (hl : c.w.isLocked = true)
